@@ -48,6 +48,7 @@ class ClassSpec:
     bases: list | None = None
     invariant: list = field(default_factory=list)  # over `self`
     value_like: str | None = None    # treat instances as a builtin value type (e.g. OrderedSet -> set)
+    record: bool = False             # immutable value object: modelled as a named tuple of its fields
 
 
 @dataclass
